@@ -31,7 +31,9 @@ def R3_latest_preceding_writer(ctx):
     sites = [(b, bl, t) for b, bl, t in facts.callers_of(lambda c: norm_callee(c).endswith('BTreeMap::range')) if not facts.is_test(b['fn'], b)]
     ctx.count('R3.range-sites', len(sites))
     ctx.ob('R3', 'mv_memory', 'anchor:range-sites', len(sites) >= 5, f'{len(sites)} BTreeMap::range sites (5 confirmed by reading: basic, code_by_address, storage x2, validate)')
-    for fnname in sorted({b['fn'] for b, _, _ in sites}):
+    # a helper extracted after the pinned commit is analysed through the functions that call it
+    # (its events appear in their paths with the caller's arguments substituted)
+    for fnname in sorted(set().union(*[facts.owner_bodies(b['fn']) for b, _, _ in sites])):
         f = ctx.fn(facts.by[fnname])
         bad = []
         n = 0
